@@ -29,6 +29,8 @@ type Frame struct {
 }
 
 type State struct {
+	nested      bool    // inside callNested (no forks allowed)
+	lastResults []Value // results of the outermost frame's return
 	heap                                             map[int]Value
 	frames                                           []*Frame
 	pc                                               []*Term
@@ -266,6 +268,9 @@ func (e *Engine) eval(st *State, f *Frame, v ssa.Value) Value {
 // clone re-executes that instruction with a forced-decision prefix): variables,
 // events, path condition and the facts derived from it are rolled back.
 func (e *Engine) forkClone(st *State, lastDecision bool) *State {
+	if st.nested {
+		panic(unsupported("fork inside a String() method called from a format intrinsic"))
+	}
 	cl := st.clone()
 	cl.varSeq = st.ivSeq
 	cl.noYield = st.ivNoYield
@@ -473,6 +478,9 @@ func (e *Engine) pushCall(st *State, fn *ssa.Function, args []Value, bind []Valu
 		panic(unsupported("no body: " + fn.String()))
 	}
 	e.funcsSeen[fn] = true
+	if traceSub != "" && strings.Contains(fn.String(), traceSub) {
+		fmt.Fprintf(os.Stderr, "TRACE %s%s\n", strings.Repeat(" ", len(st.frames)), fn.String())
+	}
 	if len(st.frames) > 200 {
 		panic(unsupported("call depth"))
 	}
@@ -501,6 +509,7 @@ func (e *Engine) ret(st *State, results []Value) {
 	st.frames = st.frames[:len(st.frames)-1]
 	if len(st.frames) == 0 {
 		st.outcome = "return"
+		st.lastResults = results
 		return
 	}
 	caller := e.top(st)
@@ -572,6 +581,43 @@ func (e *Engine) run(st *State) {
 		st.ivPcLen, st.ivCrcLen = len(st.pc), len(st.crcApps)
 		e.execSafe(st, f, in)
 	}
+}
+
+// callNested runs fn(args) to completion inside the current instruction (used
+// for String() methods of values handed to a format intrinsic).  The callee
+// must not fork.
+func (e *Engine) callNested(st *State, fn *ssa.Function, args []Value) Value {
+	saved := st.frames
+	taken := append([]bool(nil), st.taken...)
+	ivSeq, ivLen, ivNoYield, ivHLen, ivEvLen, ivPcLen, ivCrcLen := st.ivSeq, st.ivLen, st.ivNoYield, st.ivHLen, st.ivEvLen, st.ivPcLen, st.ivCrcLen
+	wasNested := st.nested
+	st.nested = true
+	st.frames = nil
+	e.pushCall(st, fn, args, nil, nil)
+	for st.outcome == "" {
+		st.steps++
+		if st.steps > e.maxSteps {
+			panic(unsupported("step budget inside nested call"))
+		}
+		f := e.top(st)
+		if f.unwinding {
+			e.unwind(st, f)
+			continue
+		}
+		e.execSafe(st, f, f.block.Instrs[f.ip])
+	}
+	if st.outcome != "return" {
+		panic(unsupported("nested call of " + fn.String() + " ended with " + st.outcome))
+	}
+	st.outcome = ""
+	st.frames = saved
+	st.nested = wasNested
+	st.taken = taken
+	st.ivSeq, st.ivLen, st.ivNoYield, st.ivHLen, st.ivEvLen, st.ivPcLen, st.ivCrcLen = ivSeq, ivLen, ivNoYield, ivHLen, ivEvLen, ivPcLen, ivCrcLen
+	if len(st.lastResults) == 1 {
+		return st.lastResults[0]
+	}
+	return nil
 }
 
 func (e *Engine) execSafe(st *State, f *Frame, in ssa.Instruction) {
@@ -1033,6 +1079,21 @@ func (e *Engine) exec(st *State, f *Frame, in ssa.Instruction) {
 		}
 		e.execSelect(st, f, x)
 		f.ip++
+	case *ssa.Go:
+		// outside thread mode a goroutine started by the code under test runs to
+		// completion at the go statement (one legal schedule; the code waits for
+		// it through a WaitGroup)
+		fv, args := e.resolveCall(st, f, &x.Call)
+		f.ip++
+		switch fn := fv.(type) {
+		case *Func:
+			if !e.intrinsic(st, fn.Fn, args, nil, true) {
+				e.pushCall(st, fn.Fn, args, fn.Bind, nil)
+				e.top(st).fromDefer = true // the caller simply continues afterwards
+			}
+		default:
+			panic(unsupported("go statement on a non-function value"))
+		}
 	default:
 		panic(unsupported(fmt.Sprintf("instruction %T", in)))
 	}
@@ -1206,6 +1267,9 @@ func (e *Engine) resolveCall(st *State, f *Frame, c *ssa.CallCommon) (Value, []V
 		if recv == nil {
 			panic(goPanic{"runtime error: nil pointer dereference (invoke on nil interface " + c.Method.Name() + ")"})
 		}
+		if eo, ok := recv.V.(*ErrObj); ok && c.Method.Name() == "Error" {
+			return &constCall{v: eo.Msg}, args
+		}
 		ms := e.prog.MethodSets.MethodSet(recv.T)
 		sel := ms.Lookup(c.Method.Pkg(), c.Method.Name())
 		if sel == nil {
@@ -1221,7 +1285,10 @@ func (e *Engine) resolveCall(st *State, f *Frame, c *ssa.CallCommon) (Value, []V
 	return fv, args
 }
 
+var traceSub = os.Getenv("VERIF_TRACE")
+
 type loggerCall struct{ name string }
+type constCall struct{ v Value }
 
 func isLoggerIface(t types.Type) bool {
 	n, ok := t.(*types.Named)
@@ -1241,6 +1308,9 @@ func (e *Engine) execCall(st *State, f *Frame, c *ssa.CallCommon, instr ssa.Valu
 			return
 		}
 		f.env[instr] = nil
+		f.ip++
+	case *constCall:
+		f.env[instr] = fn.v
 		f.ip++
 	case *ssa.Builtin:
 		f.env[instr] = e.builtin(st, fn, args, c)
@@ -1391,6 +1461,53 @@ func (e *Engine) builtin(st *State, b *ssa.Builtin, args []Value, c *ssa.CallCom
 		return Ite(Cmp(op, a, bb), a, bb)
 	case "print", "println":
 		return nil
+	case "SliceData":
+		sl := args[0].(*Slice)
+		if sl == nil || sl.Nil || sl.Cap == 0 {
+			return (*Ptr)(nil)
+		}
+		return &Ptr{Obj: sl.Obj, Path: appendPath(sl.Path, sl.Off)}
+	case "Slice":
+		p, _ := args[0].(*Ptr)
+		n, ok := concreteInt(args[1])
+		if !ok {
+			panic(unsupported("unsafe.Slice with symbolic length"))
+		}
+		if p == nil {
+			return &Slice{Nil: true}
+		}
+		last := p.Path[len(p.Path)-1]
+		return &Slice{Obj: p.Obj, Path: append([]int(nil), p.Path[:len(p.Path)-1]...), Off: last, Len: n, Cap: n}
+	case "String":
+		p, _ := args[0].(*Ptr)
+		n, ok := concreteInt(args[1])
+		if !ok {
+			panic(unsupported("unsafe.String with symbolic length"))
+		}
+		if n == 0 || p == nil {
+			return ""
+		}
+		last := p.Path[len(p.Path)-1]
+		arr := getPath(st.heap[p.Obj], p.Path[:len(p.Path)-1]).(*Array)
+		bs := make([]byte, n)
+		for i := 0; i < n; i++ {
+			t := arr.E[last+i].(*Term)
+			if !t.IsConst() {
+				panic(unsupported("unsafe.String over symbolic bytes"))
+			}
+			bs[i] = byte(t.C)
+		}
+		return string(bs)
+	case "StringData":
+		str := args[0].(string)
+		if len(str) == 0 {
+			return (*Ptr)(nil)
+		}
+		arr := &Array{E: make([]Value, len(str))}
+		for i := 0; i < len(str); i++ {
+			arr.E[i] = Const(8, uint64(str[i]))
+		}
+		return &Ptr{Obj: st.alloc(arr), Path: []int{0}}
 	case "ssa:wrapnilchk":
 		return args[0]
 	}
@@ -1502,6 +1619,11 @@ func (e *Engine) execSelect(st *State, f *Frame, x *ssa.Select) {
 		return
 	}
 	st.outcome = "DEADLOCK: blocking select"
+	if os.Getenv("STACK") != "" {
+		for _, fr := range st.frames {
+			fmt.Fprintln(os.Stderr, "   sel at", fr.fn)
+		}
+	}
 }
 
 // ---- thread mode ----
